@@ -217,8 +217,11 @@ def run_inv(ctx, i):
     case = gen_aa.imaging_case(aa, rng, kshapes=(1, 3), max_unmasked=30)
 
     def regf(r):
+        # kernel schemes have dense regularization matrices whose sparse LU has negative pivots (log-determinant path)
         return [aa.reg.Constant(coefficient=float(r.uniform(0.1, 2.0))),
-                aa.reg.ConstantZeroth(coefficient_neighbor=float(r.uniform(0.1, 2.0)), coefficient_zeroth=float(r.uniform(0.3, 2.0)))][int(r.integers(2))]
+                aa.reg.ConstantZeroth(coefficient_neighbor=float(r.uniform(0.1, 2.0)), coefficient_zeroth=float(r.uniform(0.3, 2.0))),
+                aa.reg.GaussianKernel(coefficient=float(r.uniform(0.2, 2.0)), scale=1.0),
+                aa.reg.ExponentialKernel(coefficient=float(r.uniform(0.2, 2.0)), scale=1.0)][int(r.integers(4))]
 
     mode = int(rng.choice([0, 1, 1, 2]))   # 0: all regularised, 1: mix, 2: nothing regularised (function lists only)
     if mode == 2:
@@ -229,6 +232,17 @@ def run_inv(ctx, i):
             d["regularized"] = False
     else:
         objs, desc = gen_aa.linear_objects(aa, rng, case, allow_unregularized=(mode == 1), reg_factory=regf)
+    for o, d in zip(objs, desc):
+        if type(o.regularization).__name__ in ("GaussianKernel", "ExponentialKernel"):
+            V = _np(o.source_plane_mesh_grid).astype(float)
+            dist = np.sqrt(((V[:, None, :] - V[None, :, :]) ** 2).sum(-1))
+            # broad kernels (strongly non-diagonal inverse covariance) as long as the covariance stays invertible
+            sc = float(rng.uniform(0.6, 2.0)) * float(np.min(dist[dist > 0]))
+            gauss = type(o.regularization).__name__ == "GaussianKernel"
+            while np.linalg.cond((np.exp(-dist ** 2 / (2 * sc ** 2)) if gauss else np.exp(-dist / sc)) + 1e-8 * np.eye(len(V))) > 1e6:
+                sc *= 0.8
+            o.regularization.scale = sc
+            d["regularization"] = type(o.regularization).__name__
     m, mask = case["m"], case["mask"]
     W = dict(mask=m, objects=desc, kernel=case["k"])
     st = aa.SettingsInversion(use_w_tilde=bool(rng.integers(2)), use_positive_only_solver=bool(rng.random() < 0.3),
